@@ -111,10 +111,12 @@ structure St where
   act : Option Active       -- holder of `_request_lock`
   queue : List Req          -- callers waiting for the lock, FIFO
   userDisc : Option Nat     -- user `disconnect()` awaiting the DisconnectResponse until this instant
+  cb : Bool := true         -- an `indication_callback` is registered (the constructor default is None)
   deriving DecidableEq, Repr
 
-def St.init (udp : Bool) : St :=
-  { now := 0, udp := udp, chan := true, up := true, seq := 0, sexp := 0, act := none, queue := [], userDisc := none }
+def St.init (udp : Bool) (cb : Bool := true) : St :=
+  { now := 0, udp := udp, chan := true, up := true, seq := 0, sexp := 0, act := none, queue := [], userDisc := none,
+    cb := cb }
 
 /-- The `matches` of read_property / write_property. -/
 def Req.matches (r : Req) (f : Frame) : Bool :=
@@ -235,7 +237,7 @@ def giveUpDone (s : St) : St × List Out :=
 def deliver (s : St) (f : Frame) : St × List Out :=
   match f.code with
   | .gb => (s, [])
-  | .ind => (s, [(s.now, .ind f.p)])
+  | .ind => (s, if s.cb then [(s.now, .ind f.p)] else [])    -- to the callback if there is one; never to a request
   | _ =>
     match s.act with
     | some a =>
@@ -386,9 +388,9 @@ def runBuckets (s : St) (cur : List Out) : List In → List (List Out)
 
 -- DRIVER: dm => XknxVerif.DevMgmt.handle
 def handle : List String → String
-  | "run" :: proto :: toks =>
+  | "run" :: proto :: cb :: toks =>
     match toks.mapM parseIn with
-    | some ins => ";".intercalate ((runBuckets (St.init (proto == "udp")) [] ins).map renderBucket)
+    | some ins => ";".intercalate ((runBuckets (St.init (proto == "udp") (cb != "nocb")) [] ins).map renderBucket)
     | none => "bad-op"
   | _ => "bad-op"
 
